@@ -196,7 +196,20 @@ fn run_case(case: &Value) -> (Value, Option<Ctx>) {
     }
     if !rootpath.is_empty() {
         marker("OPENROOT");
-        match Root::open(rootpath) {
+        // "root_rdonly": the root is a descriptor the caller opened itself with O_RDONLY|O_DIRECTORY (what a C program
+        // that does not know about O_PATH hands to pathrs_inroot_*), wrapped with Root::from_fd
+        let opened = if case.get("root_rdonly").and_then(|v| v.as_bool()).unwrap_or(false) {
+            let rp = std::ffi::CString::new(rootpath).unwrap();
+            let fd = unsafe { libc::open(rp.as_ptr(), libc::O_RDONLY | libc::O_DIRECTORY | libc::O_CLOEXEC) };
+            if fd < 0 {
+                Err(format!("open(root) failed: errno {}", crate::tree::errno()))
+            } else {
+                Ok(Root::from_fd(unsafe { std::os::unix::io::OwnedFd::from_raw_fd(fd) }))
+            }
+        } else {
+            Root::open(rootpath).map_err(|e| format!("{e}"))
+        };
+        match opened {
             Ok(r) => {
                 ctx.root_raw = std::os::unix::io::AsFd::as_fd(&r).as_raw_fd();
                 ctx.root = Some(r);
